@@ -200,7 +200,12 @@ fn build_hist(c: &HCase) -> (Vec<Rec>, Vec<Rec>) {
                 let k = r.stream as usize;
                 // position-dependent content per stream
                 let all = traffic::stream_content(ty, 99, off[k] + r.len as usize);
-                body.push(Rec::new(ty, c.id, all[off[k]..].to_vec(), r.pad));
+                let mut payload = all[off[k]..].to_vec();
+                if c.id % 3 == 1 {
+                    // payload that looks like records of this request (own end markers first)
+                    traffic::protocol_lookalike(&mut payload, ty, c.id, (c.id / 3) as u32 * 4 + (off[k] as u32 & 1));
+                }
+                body.push(Rec::new(ty, c.id, payload, r.pad));
                 off[k] += r.len as usize;
             },
             Some(d) => body.push(Rec::new(ty, traffic::foreign_id(c.id, d), crate::gen::gen_bytes(r.len as usize, 5), r.pad)),
